@@ -16,6 +16,9 @@
 #include <stdexcept>
 #include <cstdint>
 #include <cstdlib>
+#include <csignal>
+#include <sys/time.h>
+#include <unistd.h>
 #include "givinteger.h"
 #include "modular.h"
 #include "gfq.h"
@@ -148,8 +151,15 @@ template <class Dom> struct Run {
 
 typedef Modular<int32_t> ModP;
 
+// per-case CPU-time watchdog (CPU time does not depend on the load of the machine): C09_CASE_CPU=<seconds> arms ITIMER_PROF
+// before every case; a call that does not return within the budget ends the process with the line HANG-CPU and exit status 99
+// (the check re-runs that one case alone with a larger budget before it calls it a failing input)
+static void on_prof(int) { static const char m[] = "\nHANG-CPU\n"; ssize_t r = write(1, m, sizeof(m) - 1); (void)r; _exit(99); }
+
 int main() {
     std::string line; int mode = -1;
+    long budget = getenv("C09_CASE_CPU") ? atol(getenv("C09_CASE_CPU")) : 0;
+    if (budget > 0) signal(SIGPROF, on_prof);
     while (std::getline(std::cin, line)) {
         std::istringstream is(line);
         std::string op, fld, st; std::vector<std::string> a; std::string t;
@@ -158,6 +168,7 @@ int main() {
         g_stream.clear(); g_pos = 0; mode = (mode + 1) % 4;
         if (st != "-") { std::vector<std::string> ts = split(st, ','); for (size_t i = 0; i < ts.size(); ++i) g_stream.push_back(strtoull(ts[i].c_str(), 0, 10)); }
         std::string out;
+        if (budget > 0) { struct itimerval it; it.it_interval.tv_sec = 0; it.it_interval.tv_usec = 0; it.it_value.tv_sec = budget; it.it_value.tv_usec = 0; setitimer(ITIMER_PROF, &it, 0); }
         try {
             if (fld.size() > 2 && fld[0] == 'q' && fld[1] == ':') {
                 std::vector<std::string> f = split(fld, ':');
@@ -197,6 +208,7 @@ int main() {
         } catch (Exhausted&) { out = "EXHAUSTED"; }
         catch (const char* m) { out = std::string("THROW ") + m; }
         catch (std::exception& e) { out = std::string("EXN ") + e.what(); }
+        if (budget > 0) { struct itimerval it; it.it_interval.tv_sec = 0; it.it_interval.tv_usec = 0; it.it_value.tv_sec = 0; it.it_value.tv_usec = 0; setitimer(ITIMER_PROF, &it, 0); }
         std::cout << out << " #" << g_pos << std::endl;
     }
     return 0;
